@@ -67,6 +67,14 @@ def gen(chk, tier):
                          repeat=(alias == "none"), j="b")
                 d["pt" if op == "gcm.seal" else "ct"] = inp
                 cmds.append(d)
+        # inputs carved from one buffer (nonce || aad || text with spare capacity behind each)
+        for op, inp in (("gcm.seal", pt), ("gcm.open", ct)):
+            k = scen("%s_packed_inputs" % op.split(".")[1])
+            cmds.append(dict(sc=k, op="gcm.aead", h="a", key=key_, noncesize=len(nonce), tagsize=ts, path="asm"))
+            d = dict(sc=k, op=op, h="a", nonce=nonce, aad=aad, prefix=[], spare=-1, alias="none", repeat=True, j="b",
+                     packed_in=True)
+            d["pt" if op == "gcm.seal" else "ct"] = inp
+            cmds.append(d)
         # forged message on the same shapes: error, nil, inputs untouched, same answer twice
         bad_ct = flip(ct, 8 * len(pt) + 3)
         for alias, spare in (("none", -1), ("none", len(pt) + 5), ("inplace", 0)):
@@ -126,6 +134,10 @@ def run(tier):
             else:
                 kw.update(id=rb(chk.rng, 16), pubx=px, puby=py, msg=rb(chk.rng, 40))
                 vw.update(id=kw["id"], msg=kw["msg"])
+            for pk in (False, True):        # separately allocated inputs, and inputs carved from one buffer
+                k = g.scenario("sm2_inputs_%s%s" % (kind, "_packed" if pk else ""))
+                g.add(k, "sm2.sign", **dict(kw, packed=pk))
+                g.add(k, "sm2.verify", **dict(vw, packed=pk))
             k = g.scenario("sm2_inputs_" + kind)
             g.add(k, "sm2.sign", **kw)
             g.add(k, "sm2.sign", **dict(kw, script=sm2gen.script_of([rscalar(chk.rng)])))
@@ -135,6 +147,7 @@ def run(tier):
         g.add(k, "sm2.derivepublic", priv=b32(d))
         g.add(k, "sm2.testpriv", priv=b32(d))
         g.add(k, "sm2.za", id=rb(chk.rng, 16), pubx=px, puby=py)
+        g.add(k, "sm2.za", id=rb(chk.rng, 16), pubx=px, puby=py, packed=True)
 
     def sm2key(b):
         ev = b["ev"]
